@@ -1569,7 +1569,7 @@ func main() {
 		"mode), a storage fault (not applied / applied-but-error) at the config write, the rule write or the replication-status write; after every call: " +
 		"Server.Get*Config, the served default rule, a fresh PersistOptions.Reload from the same storage, the stored default rule, the mode manager's mode; " +
 		"every 6th case on the etcd-backed kv.Base; a malformed stream mixed into every 3rd case; non-trivial = at least one accepted change, one " +
-		"validation rejection and one faulted write; distinct by sha256 of the canonical case text"
+		"validation rejection and one faulted write; distinct by sha256 of the canonical case text; Further classes (see notes/C18.md): leader changes inside the histories, SetLabelPropertyConfig / store limits, every second case through the real server/api handler, byte-identical retries after failed writes, config-write faults at the etcd client on etcd-backed cases; model-free request histories (replication-mode, TTL overrides, the real coordinator start, scheduler add/remove, rule requests, overlapping updates, the store-limit retry)"
 	cf := &coqfmt.CaseFile{Dir: *out, Prefix: "C18", PerFile: 20,
 		Header: "From Coq Require Import String.\nFrom PDV Require Import lib.Base model.C18_Config.\nLocal Open Scope string_scope.\nLocal Open Scope Z_scope.\n",
 		Type:   "case",
